@@ -1707,7 +1707,7 @@ func (s *SelectStatement) ColumnNames() []string {
 	for _, field := range s.Fields {
 		columnFields = append(columnFields, field)
 
-		switch f := field.Expr.(type) {
+		switch f := stripParens(field.Expr).(type) {
 		case *Call:
 			if s.Target == nil && (f.Name == "top" || f.Name == "bottom") && len(f.Args) > 1 {
 				for _, arg := range f.Args[1:] {
@@ -2012,9 +2012,9 @@ func (s *SelectStatement) rewriteWithoutTimeDimensions() string {
 			if n.Op == AND || n.Op == OR {
 				return n
 			}
-			if lhs, ok := n.LHS.(*VarRef); ok && strings.ToLower(lhs.Val) == "time" {
+			if lhs, ok := stripParens(n.LHS).(*VarRef); ok && strings.ToLower(lhs.Val) == "time" {
 				return &BooleanLiteral{Val: true}
-			} else if rhs, ok := n.RHS.(*VarRef); ok && strings.ToLower(rhs.Val) == "time" {
+			} else if rhs, ok := stripParens(n.RHS).(*VarRef); ok && strings.ToLower(rhs.Val) == "time" {
 				return &BooleanLiteral{Val: true}
 			}
 			return n
@@ -2026,6 +2026,17 @@ func (s *SelectStatement) rewriteWithoutTimeDimensions() string {
 	})
 
 	return n.String()
+}
+
+// stripParens returns the expression inside any number of enclosing parentheses.
+func stripParens(expr Expr) Expr {
+	for {
+		p, ok := expr.(*ParenExpr)
+		if !ok {
+			return expr
+		}
+		expr = p.Expr
+	}
 }
 
 func encodeMeasurement(mm *Measurement) *internal.Measurement {
